@@ -66,7 +66,8 @@ def run(prog: Program, _no_c10: bool = False) -> Results:
         r1.instances += 1
         cvar = next((norm(d.targets[0]) for d in ast.walk(f.node) if isinstance(d, ast.Assign) and isinstance(d.value, ast.Call)
                      and callee(d.value) == "get_resolution_context" and [norm(a) for a in d.value.args] == ["self"]), None)
-        ok = len(cs) == 1 and cvar is not None and [norm(a) for a in cs[0].args] == ["self", f"{cvar}.scopes"] and not cs[0].keywords
+        al_ = Aliases(f.node)
+        ok = len(cs) == 1 and cvar is not None and [al_.norm(a) for a in cs[0].args] == ["self", f"{cvar}.scopes"] and not cs[0].keywords
         calls[f.key] = cs
         r1.ob(ok, {"function": f.key, "resolver_call": norm(cs[0]) if cs else None})
         if not ok:
